@@ -401,6 +401,14 @@ func (n *Network) succeed(p *Payment) {
 
 func (nd *Node) pay(ctx context.Context, name, request string, amountMsat, maxFee uint64, partial bool) (lightning.PaymentStatus, error) {
 	if err := nd.point(name); err != nil {
+		// an injected transport error: the backend never saw the call, the mint saw an error
+		h := ""
+		if b, derr := decodepay.Decodepay(request); derr == nil {
+			h = b.PaymentHash
+		}
+		nd.Net.mu.Lock()
+		nd.Net.log(Call{Node: nd.Name, Name: name, Hash: h, FeeLimit: maxFee, Answer: string(PayError)})
+		nd.Net.mu.Unlock()
 		return lightning.PaymentStatus{}, err
 	}
 	bolt11, err := decodepay.Decodepay(request)
@@ -477,6 +485,9 @@ func (nd *Node) PayPartialAmount(ctx context.Context, request string, amountMsat
 
 func (nd *Node) OutgoingPaymentStatus(ctx context.Context, hash string) (lightning.PaymentStatus, error) {
 	if err := nd.point("OutgoingPaymentStatus"); err != nil {
+		nd.Net.mu.Lock()
+		nd.Net.log(Call{Node: nd.Name, Name: "OutgoingPaymentStatus", Hash: hash, Answer: string(StError)})
+		nd.Net.mu.Unlock()
 		return lightning.PaymentStatus{}, err
 	}
 	nd.Net.mu.Lock()
